@@ -1,5 +1,5 @@
 (* C05 - proofs about the clean-up timer layer (Ck/CkDtTimer.v). *)
-From Icv Require Import Base.Tac Ck.CkState Ck.CkFull Ck.CkDtDefs Ck.CkDtProofs Ck.CkDtObs Ck.CkDtTimer.
+From Icv Require Import Base.Tac Ck.CkState Ck.CkFull Ck.CkDtDefs Ck.CkDtProofs Ck.CkDtChain Ck.CkDtObs Ck.CkDtTimer.
 Local Open Scope Z_scope.
 Arguments chain_fuel : simpl never.
 
@@ -247,32 +247,33 @@ Qed.
 (* ------------------------------------------------------------------ one step of the timer layer *)
 
 Definition TInv (now : Z) (ts : c5_tstate) : Prop :=
-  DtInv2 now (ts_f ts) /\ TmOk (f_dts (ts_f ts)) (ts_tms ts) /\ TmSub (f_dts (ts_f ts)) (ts_tms ts).
+  DtInv3 now (ts_f ts) /\ TmOk (f_dts (ts_f ts)) (ts_tms ts) /\ TmSub (f_dts (ts_f ts)) (ts_tms ts).
 
 Lemma TInv_later now now' ts : now <= now' -> TInv now ts -> TInv now' ts.
-Proof. intros H (A & B & C). split; [eapply DtInv2_later; eassumption|split; assumption]. Qed.
+Proof. intros H (A & B & C). split; [eapply DtInv3_later; eassumption|split; assumption]. Qed.
 
 Lemma TInv_init now : 0 <= now -> TInv now c5_tinit.
 Proof.
-  intros H. split; [apply DtInv2_init; exact H|]. split.
+  intros H. split; [apply DtInv3_init; exact H|]. split.
   - intros d [].
   - intros t [].
 Qed.
 
 (* all proved checks of a base step (copied out of the run theorem of CkDtObs) *)
 Lemma step_all_ok c now prev f o :
-  DtInv2 now f -> c5_wf_step prev (c5_mk c now f o) = true ->
+  DtInv3 now f -> c5_wf_step prev (c5_mk c now f o) = true ->
   c5_sig_any (c_kind (fc_base c)) (c5_mk c now f o) = false ->
-  c5_step_all (c_kind (fc_base c)) (c5_mk c now f o) = true /\ DtInv2 now (fst (full_step c now f o)).
+  c5_step_all (c_kind (fc_base c)) (c5_mk c now f o) = true /\ DtInv3 now (fst (full_step c now f o)).
 Proof.
-  intros Hinv Hw S2. pose proof Hinv as (Hi & _ & _). unfold c5_sig_any in S2. split.
+  intros [Hinv Hord] Hw S2. pose proof Hinv as (Hi & _ & _). unfold c5_sig_any in S2. split.
   - unfold c5_step_all.
     destruct (step_checks_mono_nolate c now prev f o Hi Hw) as [H1 H2].
     destruct (step_checks_removal c now prev f o Hi Hw) as (H3 & H4 & H5 & H6). cbn zeta in H3, H4, H5, H6.
     destruct (step_check_start_inv c now prev f o Hinv Hw) as (H9 & _). cbn zeta in H9.
     rewrite H1, H2, H3, H4, H5, H6, (step_check_result c now prev f o Hi Hw),
-      (step_check_add c now prev f o Hi Hw), (H9 S2), (step_check_trigev c now prev f o Hi Hw), step_check_depth. reflexivity.
-  - apply (step_DtInv2 c now prev f o Hinv Hw).
+      (step_check_add c now prev f o Hi Hw), (H9 S2), (step_check_trigev c now prev f o Hi Hw), step_check_depth,
+      (step_check_chain c now prev f o Hinv Hord Hw). reflexivity.
+  - split; [apply (step_DtInv2 c now prev f o Hinv Hw)|apply (step_Ord c now prev f o Hi Hord Hw)].
 Qed.
 
 Lemma noop_chk c now f o : NoDup (ids (f_dts f)) -> c5_chk_noop (c5_noop_obs c now f o) = true.
@@ -313,7 +314,7 @@ Lemma tstep_ok c now prev ts xo :
   c5_tclean (c_kind (fc_base c)) (c5_tmk c now ts xo) = true ->
   c5_tstep_all (c_kind (fc_base c)) (c5_tmk c now ts xo) = true /\ TInv now (fst (c5_tstep c now ts xo)).
 Proof.
-  intros (Hinv & Hok & Hsub) Hwf Hcl. pose proof Hinv as ((Hnd & _) & _ & _).
+  intros (Hinv & Hok & Hsub) Hwf Hcl. pose proof Hinv as (((Hnd & _) & _ & _) & _).
   unfold c5_tstep_all, c5_tclean, c5_twf_step in *. cbn [c5_tmk ct_base ct_xop ct_tm_pre ct_tm_post] in *.
   destruct xo as [o|id p].
   - (* an operation of CkFull *)
@@ -323,9 +324,9 @@ Proof.
     destruct (c5_runs now (ts_tms ts) (XOp o)) eqn:Hr.
     + apply negb_true_iff in Hcl.
       destruct (step_all_ok c now prev (ts_f ts) o Hinv Hwf Hcl) as (Hall & Hinv').
-      pose proof (step_rel c now prev (ts_f ts) o (proj1 Hinv) Hwf) as Hrel.
+      pose proof (step_rel c now prev (ts_f ts) o (proj1 (proj1 Hinv)) Hwf) as Hrel.
       destruct (full_step c now (ts_f ts) o) as [f' outs] eqn:Efs. cbn [fst snd] in *.
-      pose proof Hinv' as ((Hnd' & _) & _ & _).
+      pose proof Hinv' as (((Hnd' & _) & _ & _) & _).
       destruct (tm_after_ok o outs (f_dts (ts_f ts)) (f_dts f') (ts_tms ts) Hnd' Hok Hsub Hrel) as (Hok' & Hsub').
       split; [|split; [exact Hinv'|split; assumption]].
       rewrite Hall. cbn [andb]. apply TmOk_chk. unfold c5_tmk, c5_tstep. cbn [ct_base ct_tm_post]. rewrite Hr. cbn [c5_mk c5_post]. rewrite Efs. cbn [fst ts_tms]. exact Hok'.
@@ -400,7 +401,7 @@ Theorem pump_removes c now ts d :
   c5_has (d_id d) (f_dts (ts_f (fst (c5_tstep c now ts (XOp (OpDtCleanup (d_id d))))))) = false /\
   c5_chk_end (c5_mk c now (ts_f ts) (OpDtCleanup (d_id d))) = true.
 Proof.
-  intros (Hinv & Hok & Hsub) Hd Hp He. pose proof Hinv as ((Hnd & _) & Hs & _).
+  intros (Hinv & Hok & Hsub) Hd Hp He. pose proof Hinv as (((Hnd & _) & Hs & _) & _).
   pose proof (pump_fires now _ _ d Hok Hd Hp He) as Hf.
   assert (trig_sane now d) as Hsd by (unfold sane in Hs; rewrite Forall_forall in Hs; apply Hs; exact Hd).
   pose proof (fires_expired now _ _ d Hok Hd Hsd Hf) as Hex.
